@@ -114,6 +114,65 @@ class CallSite:
         return "<call %s in %s bb%d line %s>" % (self.callee.target if self.callee else "indirect", self.body.id, self.bb, self.line)
 
 
+def _prune_literal_switches(blocks):
+    """`if false && cond {..}` / `if true || cond {..}`: at mir-opt-level 0 the short-circuit is a switch on the LITERAL.  Such a
+    switch is replaced by a goto to its one feasible arm and what becomes unreachable is marked dead (rules skip cleanup / dead
+    blocks): a comparison that is still in the text but can never be evaluated does not count as a guard.  Named constants
+    (`CHECKS`) are not literals and stay symbolic."""
+    changed = False
+    if not any(b_["term"]["k"] == "switch" and not b_["cleanup"] for b_ in blocks):
+        return
+    defs = {}
+    for b_ in blocks:
+        for st in b_["stmts"]:
+            if st["k"] == "assign":
+                defs.setdefault(st["lhs"]["l"], []).append(st if not st["lhs"]["p"] else None)
+        t_ = b_["term"]
+        if t_["k"] == "call" and "dest" in t_:
+            defs.setdefault(t_["dest"]["l"], []).append(None)
+    for blk in blocks:
+        t = blk["term"]
+        if blk["cleanup"] or t["k"] != "switch":
+            continue
+        d = t["discr"]
+        if d.get("k") in ("move", "copy") and not d["pl"]["p"]:
+            # `_t = const false; switchInt(move _t)`
+            ds = defs.get(d["pl"]["l"], [])
+            if len(ds) == 1 and ds[0] is not None and ds[0]["rv"]["k"] == "use" and ds[0]["rv"]["op"].get("k") == "const":
+                d = ds[0]["rv"]["op"]
+        if d.get("k") != "const" or "int" not in d or "cdef" in d or "named_const" in d or d.get("ty") not in ("bool",):
+            continue
+        hit = [c[1] for c in t["cases"] if c[0] == str(d["int"])]
+        tgt = hit[0] if hit else t["otherwise"]
+        blk["term"] = {"k": "goto", "target": tgt, "line": t.get("line"), "pruned_switch": True, "literal": True}
+        changed = True
+    if not changed:
+        return
+    seen = set()
+    work = [0]
+    while work:
+        i = work.pop()
+        if i in seen or i >= len(blocks):
+            continue
+        seen.add(i)
+        t = blocks[i]["term"]
+        k = t["k"]
+        succ = []
+        if k == "goto":
+            succ = [t["target"]]
+        elif k == "switch":
+            succ = [c[1] for c in t["cases"]] + [t["otherwise"]]
+        elif k in ("drop", "assert", "call"):
+            succ = [x for x in (t.get("target"), t.get("unwind")) if isinstance(x, int)]
+        elif k in ("yield", "falseedge", "falseunwind", "inlineasm"):
+            succ = [x for x in (t.get("target"), t.get("unwind")) if isinstance(x, int)]
+        work.extend(succ)
+    for i, blk in enumerate(blocks):
+        if i not in seen and not blk["cleanup"]:
+            blk["cleanup"] = True
+            blk["dead"] = True
+
+
 class Body:
     def __init__(self, crate, j):
         self.crate = crate
@@ -135,6 +194,7 @@ class Body:
         self.locals = j["locals"]
         self.blocks = j["blocks"]
         self.vars = j["vars"]
+        _prune_literal_switches(self.blocks)
         self.closures = []     # direct and nested closure bodies (filled by Crate)
         self.parent_body = None
         self.creation = None   # (parent Body, bb, stmt index, ops) for closures
